@@ -31,7 +31,7 @@ Known == {"nl.bsn", "nl.onderwijsnummer", "pl.nip", "pl.regon", "pt.nif", "dk.cv
           "bg.egn", "cu.ni", "cz.rc", "sk.rc", "lt.asmens", "ro.cnp", "kr.rrn", "gr.amka", "is_.kennitala",
           "es.cups", "es.nif", "es.referenciacatastral", "fr.nir", "in_.gstin", "si.emso", "tn.mf", "tw.ubn", "ua.rntrc", "us.ptin",
           "bg.vat", "cz.dic", "sk.dph", "ro.cf", "th.tin", "it.codicefiscale", "mu.nid", "eu.at_02", "mx.rfc", "mx.curp",
-          "iso6346", "be.eid", "de.stnr", "isan"}
+          "iso6346", "be.eid", "de.stnr", "isan", "meid"}
 (* formats with further rules (dates, ranges) that are not transcribed: the checksum is only a NECESSARY condition *)
 Necessary == {"no.fodselsnummer", "fi.hetu", "ch.ssn", "lv.pvn", "pl.pesel", "ee.ik", "at.tin", "dk.cpr", "za.idnr", "se.personnummer", "cz.bankaccount",
               "sg.uen", "ro.onrc", "id.nik", "id.npwp", "cn.ric", "be.nn", "be.bis", "us.ssn", "us.itin", "us.atin", "us.ein", "nz.bankaccount", "my.nric", "mac", "imsi", "cfi", "isil", "at.postleitzahl"}
@@ -179,6 +179,17 @@ IsanOk(c) == LET n == Len(c)  Hexs(a, b) == \A i \in a..b : IsHexU(c[i])
                   [] n = 25 -> Hexs(1, 24) /\ IsAlnumU(c[25]) /\ Iso3736Ok(c)
                   [] n = 26 -> /\ Hexs(1, 16) /\ Hexs(18, 25) /\ IsAlnumU(c[17]) /\ IsAlnumU(c[26])
                                /\ Iso3736Ok(SubSeq(c, 1, 17)) /\ Iso3736Ok(SubSeq(c, 1, 16) \o SubSeq(c, 18, 26))
+                  [] OTHER -> FALSE
+
+(* MEID (3GPP2 S.R0048): 14 hexadecimal digits, or 18 decimal digits = manufacturer code (32 bits) and serial number (24 bits); the optional check *)
+(* digit is Luhn in base 16, and Luhn in base 10 for the decimal form and for a hexadecimal form that happens to be all decimal (then it is an IMEI) *)
+Luhn16Sum(c) == Sum(LAMBDA i : LET v == EicVal(c[i]) IN IF (Len(c) - i) % 2 = 1 THEN ((2 * v) \div 16) + ((2 * v) % 16) ELSE v, Len(c))
+MeidOk(c) == LET n == Len(c)
+             IN CASE n \in {14, 15} -> /\ \A i \in 1..n : IsHexU(c[i])
+                                       /\ IF IsDigits(SubSeq(c, 1, 14)) THEN (n = 15 => (c[15] \in 48..57 /\ LuhnSum(c) % 10 = 0))
+                                          ELSE (n = 15 => Luhn16Sum(c) % 16 = 0)
+                  [] n \in {18, 19} -> /\ IsDigits(c) /\ (n = 19 => LuhnSum(c) % 10 = 0)
+                                       /\ LexLeq(SubSeq(c, 1, 10), <<52, 50, 57, 52, 57, 54, 55, 50, 57, 53>>) /\ NumOf(c, 11, 18) < 16777216
                   [] OTHER -> FALSE
 
 AcceptN(m, c) ==
@@ -562,6 +573,7 @@ AcceptN(m, c) ==
                         /\ IsDigits(SubSeq(c, 5, 11))
                         /\ (Sum(LAMBDA i : IsoVal(c[i]) * (2 ^ (i - 1)), 10) % 11) % 10 = D(c[11])
     [] m = "isan" -> IsanOk(c)
+    [] m = "meid" -> MeidOk(c)
     [] m = "be.eid" -> /\ Len(c) = 12 /\ IsDigits(c) /\ ~AllZero(c)
                        /\ LET r == ModOf(SubSeq(c, 1, 10), 97) IN NumOf(c, 11, 12) = (IF r = 0 THEN 97 ELSE r)
     [] m = "de.stnr" -> /\ IsDigits(c) /\ Len(c) \in {10, 11, 13}
